@@ -45,7 +45,7 @@ func TestC16HookFamily(t *testing.T) {
 	var cases []c16Case
 	n := 0
 	for _, s := range sentences(3) {
-		for _, e := range append([]string{s}, singleEdits(s)...) {
+		for _, e := range append([]string{s}, singleEditsOver(s, allPathTokens(true))...) {
 			if seen[e] {
 				continue
 			}
